@@ -903,6 +903,119 @@ theorem normCosO_eq (v : List (Option ℝ)) : normCosO v = scatter (maskOf v) (n
 theorem normCorrO_eq (v : List (Option ℝ)) : normCorrO v = scatter (maskOf v) (normCorr (delete v)) :=
   normCorrO_liftDel v
 
+/-! ### round 7: RDMs of one stack lacking *different* pairs (equal or unequal counts) -/
+/-- column `k` of a stack is made of the RDMs' own entries **for pair `k`**, nothing else -/
+theorem mem_colAt_iff {β : Type} (k : Nat) (rows : List (List β)) (o : β) :
+    o ∈ colAt k rows ↔ ∃ r ∈ rows, r[k]? = some o := by
+  simp [colAt, List.mem_filterMap]
+
+/-- entry `k` of `_nan_mean`'s result is computed from column `k` of the stack alone -/
+theorem nanMeanFirst_getElem? (v0 : List (Option ℝ)) (rest : List (List (Option ℝ))) (k : Nat)
+    (hk : k < v0.length) :
+    (nanMeanFirst (v0 :: rest))[k]? = some (nanMeanFirstEntry (colAt k (v0 :: rest))) := by
+  simp [nanMeanFirst, List.getElem?_map, List.getElem?_range hk]
+
+/-- **pooling RDMs that lack *different* pairs (any masks, equal or unequal counts) never shifts an
+    entry**: pooled entry `k` has the value `a` iff `k` is a pair of the RDMs, every RDM of the stack
+    has its entry `k`, and `a` is the mean of exactly the RDMs' entries `k` -/
+theorem nanMeanFirst_differing_masks_entry (v0 : List (Option ℝ)) (rest : List (List (Option ℝ)))
+    (k : Nat) (a : ℝ) :
+    (nanMeanFirst (v0 :: rest))[k]? = some (some a) ↔
+      k < v0.length ∧ (∀ r ∈ v0 :: rest, ∀ o, r[k]? = some o → o.isSome = true) ∧
+        a = mean (delete (colAt k (v0 :: rest))) := by
+  by_cases hk : k < v0.length
+  · rw [nanMeanFirst_getElem? v0 rest k hk, Option.some.injEq, nanMeanFirstEntry_some_iff]
+    have hne : colAt k (v0 :: rest) ≠ [] := by
+      have : v0[k] ∈ colAt k (v0 :: rest) :=
+        (mem_colAt_iff k _ _).2 ⟨v0, by simp, by simp [hk]⟩
+      exact List.ne_nil_of_mem this
+    constructor
+    · rintro ⟨_, hall, ha⟩
+      exact ⟨hk, fun r hr o ho => hall o ((mem_colAt_iff k _ _).2 ⟨r, hr, ho⟩), ha⟩
+    · rintro ⟨_, hall, ha⟩
+      refine ⟨hne, fun o ho => ?_, ha⟩
+      obtain ⟨r, hr, hro⟩ := (mem_colAt_iff k _ _).1 ho
+      exact hall r hr o hro
+  · have : (nanMeanFirst (v0 :: rest))[k]? = none := by
+      simp [nanMeanFirst]; omega
+    simp [this, hk]
+
+/-- non-vacuity: two RDMs lacking different pairs in equal number — the pooled RDM has a value only at
+    the pair both have (the compacted rows `[1, 3]`, `[5, 7]` would give `[3, ·, 5]`) -/
+example : nanMeanFirst [[some 1, none, some 3], [none, some 5, some 7]] =
+    ([none, none, some 5] : List (Option ℚ)) := by decide +kernel
+
+/-- the same for every pooling method that first normalises each RDM on its own present entries by a
+    map `g` keeping the RDM's NaN pattern (cosine: `normCosO`, correlation: `normCorrO`, ranks:
+    `nanRank`): pooled entry `k` has a value iff every RDM has its entry `k`, and it is the mean of
+    the RDMs' normalised entries `k` — whatever the masks of the RDMs are -/
+theorem pool_normalised_differing_masks_entry (g : List (Option ℝ) → List (Option ℝ))
+    (hg : ∀ r, maskOf (g r) = maskOf r) (v0 : List (Option ℝ)) (rest : List (List (Option ℝ)))
+    (k : Nat) (a : ℝ) :
+    (nanMeanFirst ((v0 :: rest).map g))[k]? = some (some a) ↔
+      k < v0.length ∧ (∀ r ∈ v0 :: rest, ∀ o, r[k]? = some o → o.isSome = true) ∧
+        a = mean (delete (colAt k ((v0 :: rest).map g))) := by
+  have hk : ∀ r, ((g r)[k]?).map Option.isSome = (r[k]?).map Option.isSome := by
+    intro r
+    have := congrArg (·[k]?) (hg r)
+    simpa [maskOf, List.getElem?_map] using this
+  have hlen : (g v0).length = v0.length := by
+    have := congrArg List.length (hg v0)
+    simpa using this
+  rw [List.map_cons, nanMeanFirst_differing_masks_entry, hlen]
+  refine and_congr_right (fun _ => and_congr_left (fun _ => ?_))
+  constructor
+  · intro h r hr o ho
+    have h1 := hk r
+    rw [ho] at h1
+    cases hgr : (g r)[k]? with
+    | none => rw [hgr] at h1; simp at h1
+    | some o' =>
+      rw [hgr] at h1
+      have hmem : g r ∈ g v0 :: rest.map g := by
+        rw [← List.map_cons]; exact List.mem_map_of_mem hr
+      have := h (g r) hmem o' hgr
+      simp at h1
+      rw [← h1]; exact this
+  · intro h r' hr' o' ho'
+    rw [← List.map_cons] at hr'
+    obtain ⟨r, hr, rfl⟩ := List.mem_map.1 hr'
+    have h1 := hk r
+    rw [ho'] at h1
+    cases hrk : r[k]? with
+    | none => rw [hrk] at h1; simp at h1
+    | some o =>
+      rw [hrk] at h1
+      have := h r hr o hrk
+      simp at h1
+      rw [h1]; exact this
+
+/-- the normalisers of `pool_rdm` keep each RDM's NaN pattern -/
+theorem pool_normalisers_keep_mask (v : List (Option ℝ)) :
+    maskOf (normCosO v) = maskOf v ∧ maskOf (normCorrO v) = maskOf v ∧ maskOf (nanRank v) = maskOf v := by
+  refine ⟨?_, ?_, ?_⟩
+  · rw [normCosO_eq]; exact maskOf_scatter _ _ (by simp [normCos, delete_length])
+  · rw [normCorrO_eq]; exact maskOf_scatter _ _ (by simp [normCorr, delete_length])
+  · rw [nanRank_eq]; exact maskOf_scatter _ _ (by simp [avgRank, delete_length])
+
+/-- **`pool_rdm` (euclid / cosine / rank methods, either copy) on RDMs lacking different pairs**: the
+    pooled entry of pair `k` exists iff every RDM has that pair and is then the mean of the RDMs'
+    (normalised) entries for that very pair -/
+theorem pool_differing_masks_entry (V : List (List ℝ)) (c : ℝ → ℝ → ℝ) (v0 : List (Option ℝ))
+    (rest : List (List (Option ℝ))) (k : Nat) (a : ℝ) :
+    ((pool .euclid V c (v0 :: rest))[k]? = some (some a) ↔
+      k < v0.length ∧ (∀ r ∈ v0 :: rest, ∀ o, r[k]? = some o → o.isSome = true) ∧
+        a = mean (delete (colAt k (v0 :: rest)))) ∧
+    ((pool .cosine V c (v0 :: rest))[k]? = some (some a) ↔
+      k < v0.length ∧ (∀ r ∈ v0 :: rest, ∀ o, r[k]? = some o → o.isSome = true) ∧
+        a = mean (delete (colAt k ((v0 :: rest).map normCosO)))) ∧
+    ((pool .rank V c (v0 :: rest))[k]? = some (some a) ↔
+      k < v0.length ∧ (∀ r ∈ v0 :: rest, ∀ o, r[k]? = some o → o.isSome = true) ∧
+        a = mean (delete (colAt k ((v0 :: rest).map nanRank)))) :=
+  ⟨nanMeanFirst_differing_masks_entry v0 rest k a,
+   pool_normalised_differing_masks_entry normCosO (fun r => (pool_normalisers_keep_mask r).1) v0 rest k a,
+   pool_normalised_differing_masks_entry nanRank (fun r => (pool_normalisers_keep_mask r).2.2) v0 rest k a⟩
+
 /-- **pooled RDM on a common mask = pooled RDM of the reduced RDMs, at the mask** for the
     `euclid` (also `neg_riem_dist`), `cosine`, `corr` (with the `- nanmin + c` shift) and rank
     (`spearman`, `rho-a`, `kendall`, `tau-a`, `tau-b`) methods of both `pool_rdm` copies.
